@@ -347,7 +347,7 @@ static void new_screen(int w, int h, int auth, int always, int never, int dontdi
   S->deferUpdateTime = 0; S->deferPtrUpdateTime = 0; S->desktopName = "life";
   S->newClientHook = new_hook; S->kbdAddEvent = kbd_hook; S->ptrAddEvent = ptr_hook; S->setXCutText = cut_hook;
   S->alwaysShared = always; S->neverShared = never; S->dontDisconnect = dontdisc;
-  S->cursor = NULL;                 /* no soft cursor: updates carry framebuffer pixels only */
+  rfbSetCursor(S, NULL);            /* no soft cursor: updates carry framebuffer pixels only (frees the screen's default copy) */
   if (auth) { S->authPasswdData = pwlist; S->passwordCheck = pw_hook; }
   if (xvp) S->xvpHook = xvp_hook;
   if (ft) { S->permitFileTransfer = TRUE; S->getFileTransferPermission = ftperm_hook; }
